@@ -111,6 +111,13 @@ CHECKS = {
             'Trusted: vendored /usr/include/elf.h (glibc 2.36), LLVM 14 BinaryFormat headers, hand-transcribed supplements with citations (vf/registry/c17_supp.py), readelf 2.40 for V850 only. '
             'Names without any registry counterpart (53) are reported as unreferenced, not verified.',
             'DESIGN.md 4/C17'),
+    'C18': ('differential testing against the live GNU readelf (binutils 2.40) under the project\'s own compare_output rules: shipped corpus x options, one synthesized file per description-table entry, Hypothesis-generated ELF files; per-line bucketing',
+            'Exploration: 49 corpus files x 21 options; 4,184 synthesized files (one per entry of the ELF and DWARF description tables incl. DW_OP/DW_CFA/register names) under the '
+            'matching option; random layouts/symbols/dynamic tags/relocations. Lines where either tool says unknown/unrecognized are outside the envelope and counted. Every '
+            'differing line is bucketed by (option, table entry or field).',
+            'Trusted: /usr/bin/readelf 2.40 as the deciding oracle (the project pins 2.41: entries 2.40 does not know are skipped and counted; --debug-dump=loc/Ranges on DWARF v5 list '
+            'sections are not decided here), test/run_readelf_tests.py compare_output as the equality relation, vf/enc writers. 99 open findings are listed in known_findings.txt.',
+            'DESIGN.md 4/C18'),
     'C20': ('Hypothesis-generated build-attribute sections x consumption patterns and .ARM.exidx/.ARM.extab tables, own encoders; exhaustive first-byte / two-byte opcode sweep against an EHABI table-4 disassembler',
             'Exploration: subsections, scoped sub-subsections and attributes (uleb, NTBS, compatibility, nested also-compatible-with) of ARM and RISC-V attribute sections '
             'under 12 consumption patterns (lock-step, list() first, num_*/properties, filters, interleaved stream users); exidx entries (prel31 sign classes, every entry kind, '
